@@ -168,37 +168,58 @@ structure Rec where
   content : Bytes
 deriving Repr, DecidableEq
 
+/-- second half of `record.read`: `rec.rbuf = make([]byte, n); io.ReadFull(r, rec.rbuf[:n]);
+buf = rec.rbuf[:ContentLength]` with `n = ContentLength + PaddingLength` -/
+def readBody (typ id clen plen : Nat) (rest : Bytes) : R (Except ReadErr Rec × Bytes) :=
+  let n := clen + plen
+  if rest.length < n then
+    .ok (.error (if rest.length = 0 then .eof else .unexpectedEOF), [])
+  else
+    match slice rest 0 n with
+    | .error e => .error e
+    | .ok body =>
+      match sliceFrom rest n with
+      | .error e => .error e
+      | .ok rest' =>
+        match slice body 0 clen with
+        | .error e => .error e
+        | .ok content => .ok (.ok { typ := typ, id := id, content := content }, rest')
+
+/-- the header fields `record.read` looks at: version, type, id, content length, padding length -/
+def headerFields (h : Bytes) : R (Nat × Nat × Nat × Nat × Nat) :=
+  match idx h 0 with
+  | .error e => .error e
+  | .ok ver =>
+    match idx h 1 with
+    | .error e => .error e
+    | .ok typ =>
+      match be16 h 2 with
+      | .error e => .error e
+      | .ok id =>
+        match be16 h 4 with
+        | .error e => .error e
+        | .ok clen =>
+          match idx h 6 with
+          | .error e => .error e
+          | .ok plen => .ok (ver.toNat, typ.toNat, id, clen, plen.toNat)
+
 /-- `record.read`: one record off the input, or the error; the rest of the input. -/
 def readRecord (inp : Bytes) : R (Except ReadErr Rec × Bytes) :=
   if inp.length = 0 then .ok (.error .eof, [])
   else if inp.length < 8 then .ok (.error .unexpectedEOF, [])
   else
-    match slice inp 0 8, sliceFrom inp 8 with
-    | .error e, _ => .error e
-    | _, .error e => .error e
-    | .ok h, .ok rest =>
-      match idx h 0, idx h 1, be16 h 2, be16 h 4, idx h 6 with
-      | .ok ver, .ok typ, .ok id, .ok clen, .ok plen =>
-        if ver ≠ 1 then .ok (.error .badVersion, rest)
-        else if typ.toNat = typeEndRequest then .ok (.error .eof, rest)
-        else
-          let n := clen + plen.toNat
-          -- rec.rbuf = make([]byte, n); io.ReadFull(r, rec.rbuf[:n])
-          if rest.length < n then
-            .ok (.error (if rest.length = 0 ∧ n ≠ 0 then .eof else .unexpectedEOF), [])
-          else
-            match slice rest 0 n, sliceFrom rest n with
-            | .ok body, .ok rest' =>
-              match slice body 0 clen with
-              | .ok content => .ok (.ok { typ := typ.toNat, id := id, content := content }, rest')
-              | .error e => .error e
-            | .error e, _ => .error e
-            | _, .error e => .error e
-      | .error e, _, _, _, _ => .error e
-      | _, .error e, _, _, _ => .error e
-      | _, _, .error e, _, _ => .error e
-      | _, _, _, .error e, _ => .error e
-      | _, _, _, _, .error e => .error e
+    match slice inp 0 8 with
+    | .error e => .error e
+    | .ok h =>
+      match sliceFrom inp 8 with
+      | .error e => .error e
+      | .ok rest =>
+        match headerFields h with
+        | .error e => .error e
+        | .ok (ver, typ, id, clen, plen) =>
+          if ver ≠ 1 then .ok (.error .badVersion, rest)
+          else if typ = typeEndRequest then .ok (.error .eof, rest)
+          else readBody typ id clen plen rest
 
 /-- What a reader of `streamReader` sees: the stdout chunks in order (one per non-stderr
 record, possibly empty), the bytes appended to `c.stderr`, and the error that ends the stream. -/
